@@ -48,9 +48,10 @@ def verus_verdict(tier, use_cache=True):
     """weave + verus on the whole crate; returns dict"""
     dropped = set()
     override = {}
+    drop_fns = set()
     HINT_KINDS = ('head', 'tail', 'after', 'before', 'loop', 'loopbody')
     for attempt in range(8):
-        vd = _verus_verdict_once(tier, use_cache, dropped, override)
+        vd = _verus_verdict_once(tier, use_cache, dropped, override, drop_fns)
         errs = [j for j in vd['res'].get('diags', []) if j.get('level') == 'error' and j.get('code')]
         if not errs:
             if vd['res']['rc'] != 0 and not vd['res'].get('verified') and not vd['diags'] and os.path.isdir(BASELINE_SRC):
@@ -75,11 +76,16 @@ def verus_verdict(tier, use_cache=True):
         #    current text does not fit its contracts any more.  Replace the module by its BASELINE text (baseline_src/, the
         #    snapshot taken with the ledger) so that the other modules still get a verdict -- modular reasoning only needs the
         #    module's contract.  Every obligation of a replaced module is undecided.
-        newdrop, bad = set(), set()
+        newdrop, bad, newfns = set(), set(), set()
         w_ = vd['w']
         for j in errs:
             for sp in j.get('spans', []):
                 ln = sp.get('line_start')
+                if ln is not None and ln not in w_.src_line and ln not in w_.ins_line:
+                    # inside a lemma / client module appended to the crate: drop that function
+                    for f_ in vd['fns']:
+                        if f_.lo <= ln <= f_.hi and f_.has_body and (f_.module.startswith('lemmas_') or f_.module == 'client') and f_.name not in drop_fns:
+                            newfns.add(f_.name)
                 if ln in w_.src_line:
                     bad.add(w_.src_line[ln][0])
                 elif ln in w_.ins_line:
@@ -108,13 +114,16 @@ def verus_verdict(tier, use_cache=True):
         if newdrop:
             dropped |= newdrop
             continue
+        if newfns:
+            drop_fns |= newfns
+            continue
         break
     vd['compile_errors'] = [j.get('message', '')[:200] for j in vd['res'].get('diags', []) if j.get('level') == 'error' and j.get('code')]
     return vd
 
 
-def _verus_verdict_once(tier, use_cache, dropped, override=None):
-    w = W.weave(REPO, CONTRACTS, extra_modules=lemma_modules(), drop_directives=dropped, override_src=override)
+def _verus_verdict_once(tier, use_cache, dropped, override=None, drop_fns=()):
+    w = W.weave(REPO, CONTRACTS, extra_modules=lemma_modules(), drop_directives=dropped, override_src=override, drop_extra_fns=drop_fns)
     fns = V.fn_table(w.text)
     rlimit = 80 if tier == 'quick' else 160
     key = hashlib.sha256((w.sha + '|rl%d' % rlimit).encode()).hexdigest()
